@@ -454,3 +454,122 @@ pub fn all_suites(thorough: bool) -> Vec<Suite> {
 pub fn find_suite(name: &str, thorough: bool) -> Option<Suite> {
     all_suites(thorough).into_iter().find(|s| s.name == name)
 }
+
+// ------------------------------------------------------------------ histories for the crash engine
+
+pub const V_EVIL_REC: u8 = 6;
+pub const V_EVIL_MARK: u8 = 7;
+pub const V_EVIL_LEGACY: u8 = 8;
+
+/// A two-block value whose second block is, byte for byte, something recovery
+/// would accept if it ever looked at that block as a head: a valid record of a
+/// never-written key with a huge timestamp (token bound to block `second_block`),
+/// a COMPLETE retirement marker, or a legacy deletion marker.
+pub fn evil_value(version: u32, kind: u8, second_block: u64) -> Vec<u8> {
+    use crate::layoutref as l;
+    let header = l::header_len(version, 1); // one-byte key
+    let mut v = big_value(l::BLOCK - header, 0x66);
+    let block = match kind {
+        0 => l::encode_record(
+            version,
+            second_block,
+            &l::Rec { key: b"zz".to_vec(), value: b"EVIL".to_vec(), timestamp: u64::MAX - 1, expiry: 0 },
+        ),
+        1 => l::encode_marker(second_block, 1, 1),
+        _ => l::encode_legacy_marker(),
+    };
+    v.extend_from_slice(&block);
+    v
+}
+
+pub fn crash_tables(version: u32) -> Tables {
+    let mut t = std_tables();
+    // first allocation on a fresh device lands on block 16, so the embedded image sits on block 17
+    t.values.push(evil_value(version, 0, 17));
+    t.values.push(evil_value(version, 1, 17));
+    t.values.push(evil_value(version, 2, 17));
+    t
+}
+
+pub fn crash_core_ops() -> Vec<Op> {
+    let a = 0u8;
+    let b = 1u8;
+    vec![
+        ins(a, V_X),
+        ins(a, V_Y),
+        ins(a, V_BIG2),
+        ins(b, V_X),
+        Op::Delete { k: a, ts: 0 },
+        Op::Flush,
+        Op::Tick,
+        ins(b, V_BIG3),
+        Op::Delete { k: b, ts: 0 },
+        Op::Incr { k: b, delta: 1, ts: 0, ttl: 0 },
+    ]
+}
+
+pub fn crash_evil_ops() -> Vec<Op> {
+    let a = 0u8;
+    let b = 1u8;
+    vec![
+        ins(a, V_EVIL_REC),
+        ins(a, V_EVIL_MARK),
+        ins(a, V_EVIL_LEGACY),
+        ins(a, V_X),
+        ins(b, V_X),
+        Op::Delete { k: a, ts: 0 },
+        Op::Flush,
+        Op::Tick,
+    ]
+}
+
+pub fn crash_ttl_ops() -> Vec<Op> {
+    let a = 0u8;
+    vec![
+        ins(a, V_X),
+        ins_ttl(a, V_Y, 1, 0),
+        ins_ttl(a, V_X, 1000, 0),
+        Op::UpdateTtl { k: a, secs: 1 },
+        Op::Persist(a),
+        Op::Delete { k: a, ts: 0 },
+        Op::Flush,
+        Op::Tick,
+        Op::Advance(3),
+        Op::Get(a),
+    ]
+}
+
+pub fn crash_edge_ops() -> Vec<Op> {
+    let a = 0u8;
+    let b = 1u8;
+    vec![ins(a, 1), ins(a, 3), ins(b, 0), ins(b, 1), ins(a, 0), Op::Delete { k: a, ts: 0 }, Op::Delete { k: b, ts: 0 }, Op::Flush, Op::Tick]
+}
+
+fn crash_suite(name: &str, cfg: Cfg, tables: Tables, ops: Vec<Op>, depth: usize) -> Suite {
+    let mut s = suite(name, cfg, tables, ops, depth);
+    s.log_io = true;
+    s.readback = false;
+    s
+}
+
+pub fn small_disk(format: u32, data_blocks: u64) -> Cfg {
+    let mut c = disk(format, true, false);
+    c.data_blocks = data_blocks;
+    c
+}
+
+pub fn crash_suites(thorough: bool) -> Vec<Suite> {
+    let d = |q: usize, t: usize| if thorough { t } else { q };
+    let mut v = Vec::new();
+    v.push(crash_suite("crash-core-v3", disk(3, true, false), crash_tables(3), crash_core_ops(), d(4, 5)));
+    v.push(crash_suite("crash-evil-v3", disk(3, true, false), crash_tables(3), crash_evil_ops(), d(4, 5)));
+    v.push(crash_suite("crash-ttl-v3", disk(3, true, true), crash_tables(3), crash_ttl_ops(), d(4, 5)));
+    v.push(crash_suite("crash-core-v2", disk(2, true, false), crash_tables(2), crash_core_ops(), d(3, 4)));
+    v.push(crash_suite("crash-edge-v1", disk(1, true, false), edge_tables(), crash_edge_ops(), d(4, 5)));
+    v.push(crash_suite("crash-edge-v2", disk(2, true, false), edge_tables(), crash_edge_ops(), d(3, 4)));
+    v.push(crash_suite("crash-small-v3", small_disk(3, 5), crash_tables(3), crash_core_ops(), d(4, 6)));
+    let mut u = disk(3, true, false);
+    u.uring = true;
+    v.push(crash_suite("crash-uring-v3", u, crash_tables(3), crash_core_ops(), d(3, 4)));
+    v
+}
